@@ -109,6 +109,9 @@ type caseT struct {
 	CRC      bool           `json:"crc"`
 	Store    string         `json:"store"` // mem | localfs (a real directory on tmpfs: file-like blob readers)
 	Reput    bool           `json:"reput"` // Put, Delete, Put again on the same Fs before reading
+	// PutFault: the n-th blob write of the Put is refused once by the store (in-memory store only). The Put may
+	// fail - the caller then stores the content again - but whatever it reports as stored must read back
+	PutFault int `json:"put_fault,omitempty"`
 	Program  []readOp       `json:"program"`
 }
 
@@ -151,6 +154,9 @@ func drawCase(t *rapid.T) caseT {
 	c.CRC = rapid.Bool().Draw(t, "crc")
 	c.Store = rapid.SampledFrom([]string{"mem", "mem", "localfs"}).Draw(t, "store")
 	c.Reput = rapid.IntRange(0, 5).Draw(t, "reput") == 0
+	if c.Store == "mem" && rapid.IntRange(0, 5).Draw(t, "putfault") == 0 {
+		c.PutFault = rapid.IntRange(1, 8).Draw(t, "putfault_nth")
+	}
 	nops := rapid.IntRange(1, 6).Draw(t, "nops")
 	size := int64(c.Content.Size)
 	for i := 0; i < nops; i++ {
@@ -264,7 +270,23 @@ func runCase(c caseT) error {
 		}
 		src = f
 	}
+	var mf *memstore.Fault
+	if c.PutFault > 0 && c.Store != "localfs" {
+		mf = &memstore.Fault{Op: memstore.OpPut, Nth: c.PutFault, Times: 1}
+		store.AddFault(mf)
+	}
 	res, err := fs.Put(context.Background(), src)
+	if mf != nil {
+		store.ClearFaults()
+		if mf.Hits > 0 {
+			stats.Count("put_with_a_refused_blob_write", 1)
+		}
+		if err != nil && mf.Hits > 0 {
+			// the store refused one write and the Put said so: the caller stores the content again
+			stats.Count("put_failed_on_refused_blob_write", 1)
+			res, err = fs.Put(context.Background(), bytes.NewReader(content))
+		}
+	}
 	if err != nil {
 		return fmt.Errorf("Put: %v", err)
 	}
@@ -498,5 +520,62 @@ func TestRegressLeafSizeClasses(t *testing.T) {
 			check(t, c)
 			stats.Case(fmt.Sprintf("pinned leaf class L=%d", L), true, func() interface{} { return c.sig() })
 		}
+	}
+}
+
+// TestRegressManyLeaves: the root blob of an object (64 bytes per leaf) is not bounded by the leaf size: objects
+// of about 82 000 leaves of 64 bytes have a root blob just below, at and above 5 MiB. Stored through one Fs and
+// read through another (which must fetch the root blob from the store).
+func TestRegressManyLeaves(t *testing.T) {
+	for _, leaves := range []int{81919, 81920, 81927} {
+		content := hx.Expand(uint64(leaves), leaves*64-13, 0, 0)
+		be := memstore.NewBackend("blob")
+		opts := func(v string) []cafs.Option {
+			return []cafs.Option{cafs.LeafSize(64), cafs.Logger(hx.Nop), cafs.Backend(be.View(v)), cafs.CacheSize(64 * 64)}
+		}
+		err, hung, panicked := hx.Guard(300*time.Second, func() error {
+			wfs, err := cafs.New(opts("w")...)
+			if err != nil {
+				return err
+			}
+			res, err := wfs.Put(context.Background(), bytes.NewReader(content))
+			if err != nil {
+				return fmt.Errorf("Put: %v", err)
+			}
+			if res.Written != int64(len(content)) {
+				return fmt.Errorf("Put reported Written=%d, content has %d bytes", res.Written, len(content))
+			}
+			rfs, err := cafs.New(opts("r")...)
+			if err != nil {
+				return err
+			}
+			r, err := rfs.Get(context.Background(), res.Key)
+			if err != nil {
+				return fmt.Errorf("Get through a fresh Fs: %v", err)
+			}
+			defer r.Close()
+			got, err := io.ReadAll(struct{ io.Reader }{r})
+			if err != nil {
+				return fmt.Errorf("Read through a fresh Fs: %v", err)
+			}
+			if !bytes.Equal(got, content) {
+				return fmt.Errorf("read back %d bytes, stored %d, first difference at %d", len(got), len(content), firstDiff(got, content))
+			}
+			ra, err := rfs.GetAt(context.Background(), res.Key)
+			if err != nil {
+				return fmt.Errorf("GetAt through a fresh Fs: %v", err)
+			}
+			buf := make([]byte, 200)
+			off := int64(len(content) - 150)
+			n, err := ra.ReadAt(buf, off)
+			if (err != nil && err != io.EOF) || !bytes.Equal(buf[:n], content[off:]) {
+				return fmt.Errorf("ReadAt(%d) near the end: n=%d err=%v", off, n, err)
+			}
+			return nil
+		})
+		if hung || panicked || err != nil {
+			t.Fatalf("object of %d leaves of 64 bytes: %v (hung=%v panicked=%v)", leaves, err, hung, panicked)
+		}
+		stats.Case(fmt.Sprintf("pinned many leaves n=%d", leaves), true, func() interface{} { return fmt.Sprintf("%d leaves of 64 bytes", leaves) })
 	}
 }
